@@ -615,6 +615,31 @@ fn cmd_replay(path: &str) -> i32 {
         return st.code().unwrap_or(2);
     }
     let tape: Vec<u16> = serde_json::from_value(v["tape"].clone()).expect("tape");
+    if stage_name == "miri" {
+        // replay one history under Miri
+        let root = vcore::runner::verif_root();
+        let file = root.join("target-miri").join(format!("replay-{}.txt", std::process::id()));
+        let _ = std::fs::create_dir_all(file.parent().unwrap());
+        std::fs::write(&file, tape.iter().map(|x| x.to_string()).collect::<Vec<_>>().join(" ")).expect("write tape");
+        let out = std::process::Command::new("cargo")
+            .current_dir(root.join("harness").join("miri"))
+            .args(["+nightly", "miri", "run", "-q", "--"])
+            .arg(&file)
+            .arg(id)
+            .env("RUSTFLAGS", "--cap-lints warn")
+            .env("MIRIFLAGS", "-Zmiri-disable-isolation")
+            .output()
+            .expect("cargo miri");
+        let _ = std::fs::remove_file(&file);
+        let stdout = String::from_utf8_lossy(&out.stdout);
+        if stdout.contains("MIRI-OK") {
+            println!("replay passes under Miri: {}", stdout.trim());
+            return 0;
+        }
+        println!("{}\n{}", stdout, String::from_utf8_lossy(&out.stderr).lines().skip_while(|l| !l.starts_with("error")).take(30).collect::<Vec<_>>().join("\n"));
+        println!("VIOLATION property={id} replay={path}");
+        return 1;
+    }
     let stages = stages(id);
     let stage = stages
         .iter()
